@@ -31,7 +31,7 @@ def plan(tier, seed):
 def conclude(agg):
     c = agg['counters']
     return [f'monitor counter {k} is zero' for k in ('files', 'attributes_compared', 'regular_nets', 'special_nets', 'wildcards', 'via_arrays', 'via_positions',
-                                                     'oriented_vias', 'multi_segment_nets', 'three_value_points', 'empty_sections', 'wire_point_lists')
+                                                     'oriented_vias', 'multi_segment_nets', 'three_value_points', 'empty_sections', 'wire_point_lists', 'negative_array_steps', 'rejected_files_before_parse')
             if c.get(k, 0) == 0]
 
 
@@ -73,7 +73,9 @@ def gen_route(rng, special, vianames, stats):
             if r < 0.3 and vianames:
                 v = rng.choice(vianames)
                 if special and rng.random() < 0.5:
-                    nx, ny, sx, sy = rng.randint(1, 4), rng.randint(1, 3), rng.randrange(5, 100, 5), rng.randrange(5, 100, 5)
+                    nx, ny, sx, sy = rng.randint(1, 4), rng.randint(1, 3), rng.randrange(5, 100, 5) * rng.choice([1, 1, -1]), rng.randrange(5, 100, 5) * rng.choice([1, 1, -1])
+                    if sx < 0 or sy < 0:
+                        stats['negative_array_steps'] += 1
                     toks += [v, 'DO', str(nx), 'BY', str(ny), 'STEP', str(sx), str(sy)]
                     stats['via_arrays'] += 1
                     for i in range(nx):
@@ -281,6 +283,14 @@ def check_case(ctx, rng, idx):
     text, rec, stats = gen_def(rng)
     case = {'def': text, 'rngkey': getattr(rng, 'key', None)}
     nontrivial = False
+    if rng.random() < 0.25:
+        # a file the parser must reject, immediately before the real one: nothing of it may leak into the next result
+        bad = text[:max(40, text.find('COMPONENTS') + rng.randrange(5, 60))] if rng.random() < 0.5 else text.replace('END DESIGN', 'END')
+        try:
+            def_file.parse(bad)
+            ctx.count('rejected_file_accepted')
+        except Exception:
+            ctx.count('rejected_files_before_parse')
     with ctx.guard('def-raises', case):
         d = def_file.parse(text)
         ctx.count('files')
